@@ -42,6 +42,7 @@ def plan(tier, seed):
         specs.append(("eol-defects", i, 4))
     for i in range(4):
         specs.append(("truncations", i, 4))
+    specs += [("keyword-names", i, 2) for i in range(2)]
     n = 8000 if tier == "quick" else 100000
     for i in range(16):
         specs.append(("alias-graphs", n // 16, i))
@@ -68,6 +69,7 @@ def asan_plan(tier):
     specs.append(("variants", 0))
     specs += [("eol-defects", i, 8) for i in range(2)]
     specs += [("truncations", i, 4) for i in range(4)]
+    specs += [("keyword-names", i, 2) for i in range(2)]
     specs += [("multifile", 40 * k, 100 + i) for i in range(8)]
     specs += [("valid-programs", 25 * k, i) for i in range(16)]
     return specs
@@ -291,6 +293,11 @@ def run_shard(ctx, spec):
         for k0 in range(0, len(batch), 100):
             scr.run(batch[k0:k0 + 100], sample_rate=0.02)
         ctx.stats["alias_graph_cases"] += len(batch)
+    elif kind == "keyword-names":
+        _, idx, n = spec
+        batch = [{"files": t, "key": k} for i, (k, t) in enumerate(fam.keyword_name_programs()) if i % n == idx]
+        scr.run(batch, sample_rate=0.1)
+        ctx.stats["keyword_name_cases"] += len(batch)
     elif kind == "truncations":
         _, idx, n = spec
         batch = [{"files": [t], "key": k} for i, (k, t) in enumerate(fam.truncation_programs()) if i % n == idx]
@@ -601,7 +608,7 @@ def main(tier, seed):
               "per size, through the binary), doc comments with mixed-width Unicode indentation, CRLF/tab/BOM/NUL variants, command-"
               "line value combinations incl. empty strings, multi-file sets, programs whose every element carries a lint cut at every token "
               "boundary (bare and followed by a stray token), alias graphs with loops through anonymous types and by-name uses in every "
-              "order. A sample of the soup, mutation, type-form, cycle, doc-comment, "
+              "order, escaped identifiers spelled like every keyword in every naming position next to a file using the real keywords. A sample of the soup, mutation, type-form, cycle, doc-comment, "
               "variant and multi-file families plus model-generated valid programs is repeated under AddressSanitizer builds of the "
               "worker (which dereferences every pointer of the resulting AST) and of the binary (counters prefixed asan.). Thorough tier: "
               "a libFuzzer + AddressSanitizer build of the library pipeline explores from seeds of these families for a fixed time on "
@@ -609,7 +616,7 @@ def main(tier, seed):
               "distinct_nontrivial = distinct non-empty inputs"
               % (len(fam.TOKENS), 2 if tier == "quick" else 3)),
         required={"inproc_cases": 5000, "binary_runs": 500, "inproc_error_free": 50, "typeform_position_pairs": 300,
-                  "scaling_instances": 20, "cmdline_runs": 300, "doc_indentation_cases": 100, "doc_product_cases": 1000, "eol_defect_cases": 1000, "truncation_cases": 1500, "asan.truncation_cases": 1500, "alias_graph_cases": 5000,
+                  "scaling_instances": 20, "cmdline_runs": 300, "doc_indentation_cases": 100, "doc_product_cases": 1000, "eol_defect_cases": 1000, "truncation_cases": 1500, "asan.truncation_cases": 1500, "alias_graph_cases": 5000, "keyword_name_cases": 900,
                   "asan.inproc_cases": 1500, "asan.binary_runs": 300, "asan.valid_model_programs": 200,
                   **({"fuzz_executions": 200000, "fuzz_coverage_edges": 3000} if tier == "thorough" else {})},
         assumptions=["the time bound is decided on CPU time (rusage / thread clock), never on wall-clock; a watchdog firing below the "
